@@ -3,6 +3,7 @@ CONSTANTS
   WorkerCpus <- B_Workers
   WorkerGroup <- B_Groups
   Menu <- B_Menu
+  OpenJobs <- B_Open
   Classes <- B_Classes
   MaxLosses = 1
   MaxCancels = 0
@@ -21,10 +22,9 @@ INVARIANTS
   C01_JobAgrees
   C02_Registry
   C02_ClosedJobsComplete
-  C03_NeverStartedAfterFailedDep
-  C03_PropagateAtRest
+  C03_NeverStartedAfterFailedDepModLate
+  C03_PropagateAtRestModLate
   C03_Unaffected
-  C03_DepsCounted
   C04_RunningExclusive
   C04_RunningExact
   C05_NoOverbookModHandover
